@@ -218,6 +218,7 @@ int main(int argc, char** argv) {
           for (int k = 0; k < 6; k++) {
             int w = r.below(4);
             IntervalVector in = box_around(r, planted), out = in;
+            if (r.coin(8)) { int hv = r.below(nv); in[hv] = r.coin() ? Interval(-1.5e308, 1.5e308) : Interval(-1.0e308, 1.7e308); out = in; }   // bounded domain whose diameter overflows
             if (r.coin(30)) { // with an explicit context: impact of a single variable
               BoxProperties prop(out); ContractContext ctx(prop); ctx.impact.clear(); ctx.impact.add(r.below(nv));
               if (w == 2) { cs[w]->add_property(out, prop); }
